@@ -41,6 +41,13 @@ ASSUMPTIONS = [
     "is represented by feed_data chunking",
     "timer expiry exactly equal to a frame's arrival time is not generated (order of equal-time events is an "
     "event-loop detail)",
+    "asyncio.Queue: an unbounded put never suspends and put_nowait never raises - that the read queue of hsfz.py IS "
+    "unbounded is regenerated from the AST and proved (`queues_unbounded`, with a bounded-queue witness)",
+    "an ack carries nothing that ties it to one request beyond the five echoed bytes: one that arrives after the caller "
+    "gave up (connection still open) stays queued and serves the next write with the same first five bytes; after the ack "
+    "timeout the connection is closed and a late ack serves nothing (`hsfz_write_outcomes`, example below it)",
+    "the whole-execution write theorem covers continuations of gateway bytes and passing time (what can happen while the "
+    "one client task is blocked); the end of the stream while blocked is C08's subject (`hsfz_eof_wakes_ack_wait`)",
 ]
 
 SRC, DST = 0xF4, 0x10
@@ -403,6 +410,33 @@ def spec_check(plan, ops, arrivals, reports):
                     viol.append(("data-frame-lost", f"read issued at op {i} timed out at {t} ms although data frame "
                                                     f"{avail[delivered]['data'].hex()} had arrived at {avail[delivered]['t']} ms"))
                     break
+    # S1c: the stream ended, but frames completely received before a read was issued are still handed out: a read
+    # that ends with an error although the next expected data frame had been received (before the read started),
+    # with the connection not closed and no error control word in between, has lost that frame
+    if not viol:
+        delivered = 0
+        for i, op in client_ops:
+            if i not in results:
+                continue
+            t, r = results[i]
+            if r.startswith("data:"):
+                delivered += 1
+            elif op[0] == "read" and (r in ("peerclosed", "badfd", "connreset") or r.startswith(("brokenpipe", "exc:"))):
+                if closed_before[i] or any(e["op"] <= i for e in err_arrivals):
+                    continue
+                avail = [e for e in expected if e["op"] < i]
+                if len(avail) > delivered:
+                    viol.append(("data-frame-lost-at-end-of-stream",
+                                 f"read issued at op {i} ended with {r} at {t} ms although data frame "
+                                 f"{avail[delivered]['data'].hex()} had been received completely at {avail[delivered]['t']} ms "
+                                 f"and not been delivered"))
+                    break
+    # S0: a client operation ends with its result, a timeout or a connection error - never with another exception
+    for i, op in client_ops:
+        if i in results and results[i][1].startswith("exc:"):
+            viol.append(("operation-raises-unexpected-exception",
+                         f"{op[0]} issued at op {i} ended with {results[i][1][4:]} at {results[i][0]} ms"))
+            break
     # S2: write result vs. matching ack
     for i, op in client_ops:
         if op[0] != "write" or i not in results:
@@ -505,6 +539,22 @@ def template(pos, labels, req, ack, yields, cuts=(), caller=None, gap=0):
     return {"cfg": cfg(ack, yields), "pos": pos, "labels": list(labels), "steps": steps}
 
 
+def two_writes(labels, asg, req1, req2, ack, yields, caller1):
+    """W1 .. W2 .. R with the frames `labels` placed into the phases `asg` (0 before W1, 1 while W1 waits, 2 after W1 has
+    ended, 3 while W2 waits, 4 while the read waits); frames of phases 0-2 are built for req1, the others for req2"""
+    by = {k: [] for k in range(5)}
+    for l, k in zip(labels, asg):
+        by[k].append(l)
+
+    def F(k, req):
+        return [["F", frames_of(by[k], req), []]] if by[k] else []
+    T = ack
+    steps = (F(0, req1) + [["A", 3], ["W", req1.hex(), caller1], ["A", 7]] + F(1, req1) + [["A", T + 20]] + F(2, req1)
+             + [["A", 5], ["W", req2.hex(), None], ["A", 7]] + F(3, req2) + [["A", T + 20], ["R", 40], ["A", 5]] + F(4, req2)
+             + [["A", 50]] + reads(2))
+    return {"cfg": cfg(ack, yields), "pos": "two-writes", "labels": list(labels), "steps": steps}
+
+
 def fix_ties(plan):
     """nudge advances so that no timer expires at exactly the arrival time of bytes"""
     for _ in range(6):
@@ -585,6 +635,38 @@ def corpus():
     P("eof-during-ack-wait", [["W", rdbi.hex(), None], ["A", 10], ["E"], ["A", 1100], ["R", 50], ["A", 60]])
     P("eof-behind-queued-frames", [["F", [["dT", a["dT"].hex()], ["dO", a["dO"].hex()]], []], ["A", 5], ["E"], ["A", 5],
                                    ["W", REQ_SHORT.hex(), None], ["A", 20]] + reads(2))
+    # frames queued, then the stream ends, then the client reads: everything received is delivered first (in order),
+    # then the reads end with a connection error
+    for y in (0, 1):
+        b = alphabet(REQ_SHORT, 1)
+        P("eof-then-reads:dT,dT", [["F", [["dT", a["dT"].hex()], ["dT", b["dT"].hex()]], []], ["A", 5], ["E"], ["A", 5]] + reads(3), yields=y)
+        P("eof-then-reads:ack,dT|W", [["W", REQ_SHORT.hex(), None], ["A", 3], ["F", [["ack", a["ack"].hex()], ["dT", a["dT"].hex()]], []],
+                                     ["E"], ["A", 50]] + reads(2), yields=y)
+        P("eof-then-reads:dO,dT,alive,dT", [["F", [["dO", a["dO"].hex()], ["dT", a["dT"].hex()], ["alive", a["alive"].hex()],
+                                                  ["dT", b["dT"].hex()]], [9]], ["E"], ["A", 5]] + reads(3), yields=y)
+    return out
+
+
+def bursts(ctx):
+    """more frames than any small queue bound pile up unconsumed - while the client is idle, and in the local list of a
+    write waiting for its ack - followed by an alive check, then everything is read: the reader task must not stall behind
+    the backlog (alive check answered at its arrival) and putting the skipped frames back must not fail"""
+    out = []
+    for n in (33, 48, 80) if ctx.quick and not ctx.widened else (33, 34, 48, 65, 80, 130):
+        labels = ["dT" if i in (1, n // 2, n - 1) else "dO" for i in range(n)]
+        for y in (0, 1):
+            fs = frames_of(labels, REQ_SHORT)
+            al = frames_of(["alive"], REQ_SHORT)
+            ack = frames_of(["ack"], REQ_SHORT)
+            out.append(("burst-idle", {"cfg": cfg(1000, y), "pos": "burst-idle", "labels": labels + ["alive"],
+                                       "steps": [["F", fs, []], ["A", 50], ["F", al, []], ["A", 20]] + reads(4)
+                                       + [["W", REQ_SHORT.hex(), None], ["A", 10], ["F", ack, []], ["A", 20]]}))
+            out.append(("burst-idle-segments", {"cfg": cfg(1000, y), "pos": "burst-idle", "labels": labels + ["alive"],
+                                                "steps": [s for j in range(0, n, 7) for s in (["F", fs[j:j + 7], []], ["A", 3])]
+                                                + [["F", al, []], ["A", 20]] + reads(4)}))
+            out.append(("burst-ack-wait", {"cfg": cfg(1000, y), "pos": "burst-ack-wait", "labels": labels + ["alive", "ack", "alive"],
+                                           "steps": [["W", REQ_SHORT.hex(), None], ["A", 7], ["F", fs, []], ["A", 30], ["F", al, []],
+                                                     ["A", 30], ["F", ack, []], ["A", 30], ["F", al, []], ["A", 20]] + reads(4)}))
     return out
 
 
@@ -643,6 +725,41 @@ def gen_plans(ctx):
                         plans.append(("ack-timeout-grid", template(pos, labels, REQ_LONG if n3 % 2 else REQ_SHORT, ack, n3 % 2 if "alive" in labels else 0, caller=caller)))
     ctx.exhaustive_parts.append(f"ack timeouts {ACKS} ms x {{early, 3 ms before, 5 ms after the deadline}} x caller timeout {{none, shorter, longer}} "
                                 f"x all sequences of length <= 2 over {{ack, ackE, dT, e40, alive}} ({n3} plans)")
+    # (3b) whole executions with several writes one after the other: every sequence of <= 2 frames over the core alphabet
+    # in every non-decreasing placement into the five phases of  W1 .. W2 .. R  (before W1, while W1 waits, after W1
+    # ended, while W2 waits, while the read waits); the second request equal to / different from the first (a late ack
+    # of the first echoes the same / other bytes); W1 with and without a caller timeout shorter than the ack timeout
+    n3b = 0
+    for n in range(0, 3):
+        for labels in itertools.product(CORE, repeat=n):
+            for asg in itertools.combinations_with_replacement(range(5), n):
+                for req2 in (REQ_SHORT, REQ_LONG):
+                    for short_caller in (False, True):
+                        ack, y, _ = rot()
+                        n3b += 1
+                        plans.append(("two-writes-exhaustive",
+                                      two_writes(labels, asg, REQ_SHORT, req2, ack, y if "alive" in labels else 0,
+                                                 ack // 2 + 1 if short_caller else None)))
+    ctx.exhaustive_parts.append(f"two writes one after the other and a read: all sequences of length <= 2 over the core alphabet x every "
+                                f"non-decreasing placement into the 5 phases (before W1, while W1 waits, after W1 ended, while W2 waits, "
+                                f"while the read waits) x second request same / different x W1 with / without a short caller timeout "
+                                f"({n3b} plans)")
+    # (3c) an ack that arrives just before / just after the deadline of the first write (ack timeout or the caller's shorter
+    # timeout), then the next write: after the ack timeout the connection is closed and the late ack must not serve anything;
+    # after the caller's timeout it stays queued and is what the next write sees first
+    for ack in ACKS:
+        for caller in (None, ack // 2 + 1):
+            dl = ack if caller is None else caller
+            for delta in (-3, 5, 40):
+                for req2 in (REQ_SHORT, REQ_LONG):
+                    for pre in ((), ("dT",), ("alive",), ("dO", "dT")):
+                        for y in (0, 1):
+                            a1 = frames_of(list(pre) + ["ack"], REQ_SHORT)
+                            a2 = frames_of(["ack", "dT"], req2)
+                            steps = [["W", REQ_SHORT.hex(), caller], ["A", dl + delta], ["F", a1, []], ["A", 9],
+                                     ["W", req2.hex(), None], ["A", 7], ["F", a2, []], ["A", ack + 20]] + reads(3)
+                            plans.append(("late-ack-then-write", {"cfg": cfg(ack, y), "pos": "late-ack", "labels": list(pre) + ["ack", "ack", "dT"],
+                                                                  "steps": steps}))
     # (4) seeded: full alphabet, longer sequences, frames spread over several positions, multi-splits
     LMAX = _pk(ctx, 4, 6, 6)
     for _ in range(_pk(ctx, 2500, 30000, 12000)):
@@ -822,7 +939,7 @@ def run(ctx):
     ctx.rule = ("a case = (configuration, operation script); distinct by the lowered script; non-trivial = the script injects at "
                 "least one gateway frame or lets a timer expire; every case is run on the real HSFZTransport and on the model and "
                 "all per-operation reports are compared")
-    plans = [("corpus", p) for p in corpus()] + gen_plans(ctx)
+    plans = [("corpus", p) for p in corpus()] + bursts(ctx) + gen_plans(ctx)
     plans = [(l, fix_ties(p)) for l, p in plans]
     nproc = max(1, min(8, (os.cpu_count() or 2) // 2))
     impl = run_impl_many([p for _, p in plans], nproc)
@@ -940,17 +1057,25 @@ def replay(ctx, case):
 MANIFEST = {
     "level_text": ("Lean 4 theorems over an executable model of the HSFZ transport that follows the code (6-byte header framing with "
                    "optional address header, reader-task dispatch, the two queue consumers with their requeue discipline, ack and caller "
-                   "timers, the loop's schedule between reader task and consumer for an arbitrary yield predicate): segmentation "
+                   "timers, the loop's schedule between reader task and consumer for an arbitrary yield predicate, the end-of-stream "
+                   "marker with the frames a read re-appends behind it): segmentation "
                    "independence for every chunking, short frames never desynchronise the stream, reads deliver exactly the ECU->tester "
                    "data payloads in arrival order for every schedule, a write completes iff a matching ack (control word 2, tester pair, "
-                   "first five request bytes) is consumed before the ack deadline, alive checks are answered by the reader task in the "
+                   "first five request bytes) is consumed before the ack deadline - per settle and (`hsfz_write_outcomes`) over whole "
+                   "executions: from any reachable idle state, over any continuation of gateway bytes and time and any schedule, the "
+                   "write ends with the first deciding item (matching ack -> completes, bare control word -> fails and closes) among "
+                   "what is queued at its start and what the stream delivers strictly before its deadline, at that item's arrival "
+                   "instant, else exactly at the deadline (caller's TimeoutError, or 'no ack' with the connection closed for good), "
+                   "else it is still blocked holding everything seen -, alive checks are answered by the reader task in the "
                    "step that parses them, an error control word closes the connection, skipped frames stay queued in arrival order. "
                    "Tied to the code by tables regenerated from hsfz.py (enum, struct formats, literals, match arms) with agreement "
                    "theorems, and by a differential run of the real HSFZTransport/HSFZConnection over in-memory streams under virtual "
                    "time: all frame sequences up to length 4 (quick) / 5 (thorough) over an 8-symbol gateway alphabet x 6 injection "
                    "positions, every single split point (incl. inside the header) for sequences up to length 2 / 3, ack timeouts "
-                   "{0.1, 1.0, 2.5 s} x arrival before/after the deadline x caller timeouts, seeded longer sequences over a 27-symbol "
-                   "alphabet with multi-splits; the property's clauses are also evaluated directly on the implementation's traces."),
+                   "{0.1, 1.0, 2.5 s} x arrival before/after the deadline x caller timeouts, two writes one after the other with "
+                   "all sequences up to length 2 in every placement into the 5 phases, acks around both kinds of deadline followed by "
+                   "the next write, bursts of 33-80 unconsumed frames with alive checks behind them, frames then end of stream then "
+                   "reads, seeded longer sequences over a 27-symbol alphabet with multi-splits and free-form conversations; the property's clauses are also evaluated directly on the implementation's traces."),
     "level_note": ("Partial: one client operation at a time (no concurrent read+write tasks); kernel TCP behaviour, real drain() "
                    "back-pressure and wall-clock latency are represented by feed_data chunking, two drain schedules and virtual time; "
                    "'immediately' for the alive check means 'in the reader-task step that parsed the frame, without waiting for the "
